@@ -1,6 +1,8 @@
 import L21.Driver.GdsIO
 import L21.Driver.RawProtoIO
 import L21.Model.RawGds
+import L21.Model.RawFlat
+import L21.Spec.GdsFlatten
 namespace L21.Driver
 open L21 Sexp Geom
 
@@ -56,6 +58,31 @@ def opGdsRawImport (args : List Sexp) : String :=
   match args with
   | [s] => match lib? s with
     | some g => (match RawGds.importLib g with | .ok l => s!"ok {glibS l}" | .err => "err")
+    | none => "bad-op"
+  | _ => "bad-op"
+
+/-- how the specification's flattened shapes are presented in the raw model (as in `Proofs/GdsFlat.lean`) -/
+def classifyS : GdsFlat.FShape → Int × Int × RawGds.Shape
+  | .poly l d pts => (l, d, RawGds.boundaryShape pts)
+  | .path l d pts w => (l, d, .path pts w)
+
+/-- `gdsraw.flat`: import, then `Layout::flatten` of every structure's cell (model `flattenCell`), in
+    structure order.  The specification flattener runs alongside: by `c06_flatten` it agrees whenever it
+    is defined — a difference would be printed and disagree with the code. -/
+def opGdsRawFlat (args : List Sexp) : String :=
+  match args with
+  | [s] => match lib? s with
+    | some g =>
+      (match RawGds.importLib g with
+       | .err => "err"
+       | .ok l =>
+         let depth := g.structs.length + 1
+         let rows := g.structs.map (fun st => (st.name, RawGds.flattenCell l.cells depth Aff.AffZ.id st.name,
+                        GdsFlat.flatten g.structs depth Aff.AffZ.id st.name))
+         if rows.any (fun r => r.2.1.isNone) then "unsupported"
+         else if rows.any (fun r => match r.2.1, r.2.2 with | some m, some sp => m != sp.map classifyS | _, _ => false) then "MODEL-SPEC-MISMATCH"
+         else s!"ok {Sexp.list (rows.map (fun r => Sexp.list (.atom "flat" :: ofBytes r.1 ::
+                (r.2.1.getD []).map (fun e => Sexp.list [ofInt e.1, ofInt e.2.1, gshapeS e.2.2]))))}")
     | none => "bad-op"
   | _ => "bad-op"
 
